@@ -12,6 +12,14 @@ E4 = "E4 comp: component harness from public constructors (race build)"
 
 # id -> (engine, level category, level text, level note, technique, design ref)
 CHECKS = {
+ "C01": (E2, "exploration",
+   "Runtime monitor on clusters of 1-4 real in-process nodes under the race detector: every upstream stamps what it serves; requests in all addressing modes run against upstream churn and every outcome must be a stamp of the addressed endpoint or a gateway refusal; after a logically decided settle every (entry node, endpoint, mode) is probed for 200-iff-served / 502.",
+   "Interleavings sampled by repetition; 'settled' decided from the nodes' own tables with a watchdog whose firing is inconclusive.",
+   "runtime monitoring: stamp/nonce oracle on real nodes under churn + settle-then-probe", "4/C01"),
+ "C06": (E2, "exploration",
+   "Runtime monitor on stand-alone real nodes with injected (possibly inconsistent) routing views: per request the per-node proxy-handler and Select counter deltas are read from /metrics at quiescence and judged together with the serving stamp. The view space for N=2 and N=3 is enumerated completely, N=4 sampled; HTTP, HTTP-with-Upgrade and TCP routes; proxy timeout default and disabled.",
+   "Sequential requests; counters scraped after the in-flight gauge is zero (second scrape, because a scrape is not atomic).",
+   "runtime monitoring: counter-delta + stamp oracle over an enumerated space of injected routing views", "4/C06"),
  "C02": (E1, "exploration",
    "Runtime monitor over seeded simulator executions of the real gossip code: after every scheduler step an oracle compares every (observer, owner) view against the owner's recorded write history (authenticity, completeness at the reported version, monotone versions, own state untouched by received messages). Held on the explored executions only.",
    "Sequentially consistent scheduler; the overlay shim only re-exports unexported functions; write history obtained by observing LocalNode() after each local action.",
